@@ -105,8 +105,8 @@ func vfHTTPError(w http.ResponseWriter, msg string, code int) {
 
 type vfURLParts struct {
 	scheme, host, path, rawQuery string
-	user                          *url.Userinfo
-	err                           error
+	user                         *url.Userinfo
+	err                          error
 }
 
 var vfURLHints map[string]*vfURLParts
@@ -160,12 +160,12 @@ type vfSha1 struct {
 	data []byte
 }
 
-func vfSha1New() hash.Hash                       { return &vfSha1{} }
-func (h *vfSha1) Write(p []byte) (int, error)    { h.data = append(h.data, p...); return len(p), nil }
-func (h *vfSha1) Sum(b []byte) []byte            { return append(b, vfUF("sha1", h.data, 20)...) }
-func (h *vfSha1) Reset()                         { h.data = nil }
-func (h *vfSha1) Size() int                      { return 20 }
-func (h *vfSha1) BlockSize() int                 { return 64 }
+func vfSha1New() hash.Hash                    { return &vfSha1{} }
+func (h *vfSha1) Write(p []byte) (int, error) { h.data = append(h.data, p...); return len(p), nil }
+func (h *vfSha1) Sum(b []byte) []byte         { return append(b, vfUF("sha1", h.data, 20)...) }
+func (h *vfSha1) Reset()                      { h.data = nil }
+func (h *vfSha1) Size() int                   { return 20 }
+func (h *vfSha1) BlockSize() int              { return 64 }
 
 // ---- context ----
 
@@ -317,8 +317,8 @@ func vfReadResponse(br *bufio.Reader, req *http.Request) (*http.Response, error)
 	return resp, nil
 }
 
-func vfResponseCookies(r *http.Response) []*http.Cookie { return nil }
-func vfRequestAddCookie(r *http.Request, c *http.Cookie)  {}
+func vfResponseCookies(r *http.Response) []*http.Cookie  { return nil }
+func vfRequestAddCookie(r *http.Request, c *http.Cookie) {}
 
 func vfNopCloser(r io.Reader) io.ReadCloser { return vfNop{r} }
 
